@@ -1,6 +1,8 @@
 package main
 
 import (
+	"crypto/sha256"
+	"encoding/hex"
 	"flag"
 	"fmt"
 	"os"
@@ -88,22 +90,27 @@ func dischargeAll(ctx *Ctx, obls []*Obligation, timeoutS, par int, dump string) 
 				if len(o.Using) > 0 {
 					atts = append([]att{{-2, true}}, atts...)
 				}
+				// advisory cache: which attempt discharged this very script last time
+				advKey := advisoryKey(script)
+				if won := advisoryGet(advKey); won != "" {
+					if won == "full" {
+						atts = nil
+					} else {
+						for k, a := range atts {
+							if attTag(a.d, a.hide) == won {
+								atts = append([]att{a}, append(append([]att(nil), atts[:k]...), atts[k+1:]...)...)
+								break
+							}
+						}
+					}
+				}
 				for _, a := range atts {
 					small := o.RenderOpts(a.d, a.hide)
 					if seenLen[len(small)] || (!a.hide && len(small) >= len(script)*9/10) {
 						continue
 					}
 					seenLen[len(small)] = true
-					tag := fmt.Sprintf("near%d", a.d)
-					if a.d == -1 {
-						tag = "fam"
-					}
-					if a.d == -2 {
-						tag = "using"
-					}
-					if a.hide {
-						tag += "h"
-					}
+					tag := attTag(a.d, a.hide)
 					if dump != "" {
 						os.WriteFile(filepath.Join(dump, fmt.Sprintf("%s.%s.smt2", sanitize(o.Name), tag)), []byte(small), 0o644)
 					}
@@ -111,12 +118,19 @@ func dischargeAll(ctx *Ctx, obls []*Obligation, timeoutS, par int, dump string) 
 						r.Solver += "(" + tag + ")"
 						out[i] = Discharged{o, r}
 						solved = true
+						advisoryPut(advKey, tag)
 						break
 					}
 				}
 				if solved {
 					return
 				}
+				r := Solve(script, timeoutS, nil)
+				if r.Status == "unsat" {
+					advisoryPut(advKey, "full")
+				}
+				out[i] = Discharged{o, r}
+				return
 			}
 			out[i] = Discharged{o, Solve(script, timeoutS, nil)}
 		}(i, o)
@@ -273,6 +287,46 @@ func alphaNorm(f string) string {
 		m[v] = r
 		return r
 	})
+}
+
+func attTag(d int, hide bool) string {
+	tag := fmt.Sprintf("near%d", d)
+	if d == -1 {
+		tag = "fam"
+	}
+	if d == -2 {
+		tag = "using"
+	}
+	if hide {
+		tag += "h"
+	}
+	return tag
+}
+
+// The advisory cache only orders the attempts (which reduced script to try
+// first); every result still comes from a solver run or the result cache.
+func advisoryKey(script string) string {
+	h := sha256.Sum256([]byte(solverVersions + "\nadv\n" + script))
+	return hex.EncodeToString(h[:])
+}
+
+func advisoryGet(key string) string {
+	if cacheDir == "" || noCache {
+		return ""
+	}
+	b, err := os.ReadFile(filepath.Join(cacheDir, key+".adv"))
+	if err != nil {
+		return ""
+	}
+	return strings.TrimSpace(string(b))
+}
+
+func advisoryPut(key, tag string) {
+	if cacheDir == "" || noCache {
+		return
+	}
+	os.MkdirAll(cacheDir, 0o755)
+	os.WriteFile(filepath.Join(cacheDir, key+".adv"), []byte(tag), 0o644)
 }
 
 func minInt(a, b int) int {
